@@ -85,17 +85,27 @@ CHECKS = {
         technique="Coq proof (well-formedness of the delta-encoded stream for every analysed text; binding kinds and declaration modifier for every valid program via the parser round trip and the typing theorems) over a Gallina model + correspondence through the binary + classification oracle"),
     "C16": dict(
         category="other",
-        text="Machine-checked for ALL documents and positions (Props/C16.v, 7 theorems) over a literal transcription of "
-             "completion.rs: the variables / procedures / types in an answer are either none or exactly the entries of the "
-             "enclosing procedure's own local table / the global table (C16_shape), no name local to another procedure is ever "
-             "proposed (C16_no_leak), outside every declaration exactly the declaration starters with the main snippet iff main "
-             "is not a procedure (C16_toplevel*), no panic under compl_wf_b. WHERE proposals are offered is decided by an "
-             "intricate position classifier: the full statement is refuted (C16_full_statement_refuted) and five position classes "
-             "on which the answer is null or incomplete are recorded as known findings (cursor directly behind a token, comment "
-             "line before the cursor, start of a branch/loop body, parenthesis left of `:=`, start of the text). Everything else is "
-             "decided per input: model = server; multiset oracle from the derivation for the four position classes.",
+        text="Machine-checked (Props/C16.v, 15 theorems) over a literal transcription of completion.rs. For ALL documents and "
+             "positions: the variables / procedures / types in an answer are either none or exactly the entries of the enclosing "
+             "procedure's own local table / the global table (C16_shape), no name local to another procedure is ever proposed "
+             "(C16_no_leak), outside every declaration exactly the declaration starters with the main snippet iff main is not a "
+             "procedure (C16_toplevel*), no panic (compl_wf_b, proved for every analysed text: C02_new_doc_compl_wf). For EVERY "
+             "valid program in every layout, at every cursor position in the white space of a token gap (at least one character "
+             "behind the previous token, no comment in between): at a statement position of a procedure body - between top-level "
+             "statements, in front of the closing brace, and inside blocks / branches / loop bodies at any depth - the variables "
+             "are exactly the parameters and locals of that procedure and the procedures exactly all declared and predefined ones "
+             "(C16_statement_position_valid, C16_nested_statement_position_valid); at a type position (behind `:` or `of` in a "
+             "procedure, behind `=` or `of` in a type declaration) the types are exactly the declared types plus int "
+             "(C16_type_position_valid, C16_type_decl_position); between / before / behind the global declarations exactly the "
+             "declaration starters (C16_toplevel_position_valid). Two defects found while proving (no declared types behind `=` of "
+             "a type declaration, null behind `of` in a procedure) are repaired in /repo f933470. The statement over ALL positions "
+             "of the four classes is refuted (C16_full_statement_refuted): five position classes on which the classifier answers "
+             "null or incompletely are known findings (cursor directly behind a token, comment line before the cursor, start of a "
+             "non-block branch/loop body, parenthesis left of `:=`, start of the text) - hence `other`. Decided per input: model = "
+             "server; multiset oracle from the derivation for the position classes incl. the new type positions; answers along edit "
+             "histories.",
         design_ref="DESIGN.md sections 5 (C16) and 10.2",
-        technique="Coq proof of scope theorems (shape, no leak, top level) over a Gallina transcription of the completion handler + correspondence through the binary + position-class oracle"),
+        technique="Coq proof (scope theorems for all documents; exact proposals at statement / type / top-level gap positions of every valid program via the parser round trip and the typing theorems) over a Gallina transcription of the completion handler + correspondence through the binary + position-class oracle"),
     "C17": dict(
         category="proof",
         text="Machine-checked (Props/C17.v, 7 theorems) over the model of fold.rs. For EVERY text (valid program or not) the handler "
@@ -175,7 +185,7 @@ CHECKS = {
         technique="Coq proof of totality/panic-freedom of the whole analysis pipeline model (lexer, parser, table, semantic analysis, diagnostics conversion) and of all request handlers on every analysed text + model/implementation correspondence on outcomes + request fuzzing of the binary"),
     "C03": dict(
         category="other",
-        text="Machine-checked (Props/C03.v, 48 theorems): for ARBITRARY trees and tables the analysis algorithm agrees with a "
+        text="Machine-checked (Props/C03.v, 58 theorems): for ARBITRARY trees and tables the analysis algorithm agrees with a "
              "declarative typing of SPL (Spec/Typing.v): no false positive (C03_analyze_sound, C03_build_sound), no false "
              "negative (C03_analyze_complete, C03_analyze_exact), per rule exactly that rule's message at the node the rule names "
              "(19 semantic + 10 declaration C03_rule_* theorems), a single semantic fault at any depth yields exactly one "
@@ -183,8 +193,13 @@ CHECKS = {
              "offsets (C03_localisation), and for EVERY text every published range lies inside the document "
              "(C03_every_published_range_inside). From texts on: any text that lexes to the tokens of a well-typed abstract "
              "program gets no diagnostic (C03_no_false_positive, via the C04 round trip; the lexer's output is a hypothesis). "
-             "Stated, not proved: the single-fault statement for the declaration rules and missing-token faults over rendered "
-             "texts (C03_full_statement). The check validates the pipeline on rendered programs: well-typed => none; 27+ "
+             "The single-fault statement is proved for the 18 semantic rules (C03_statement_semantic) AND for the 10 declaration "
+             "rules (C03_statement_declaration, C03_full_statement_declaration: undefined type / not a type / redeclaration as type, "
+             "procedure, parameter, variable / must be a reference parameter / main missing, not a procedure, with parameters - "
+             "one constructor per rule in Proofs/DeclFaults.v, the rest of the program valid w.r.t. the table the faulty "
+             "declaration leaves; from texts on: C03_single_declaration_fault_text, C03_main_is_missing_text, "
+             "C03_main_is_not_a_procedure_text). Not proved: the missing-token syntax faults (no Coq definition), programs that USE "
+             "an entity of unknown type. The check validates the pipeline on rendered programs: well-typed => none; 27+ "
              "single-fault injectors => exactly the prescribed diagnostic(s) on the culprit's byte range; LSP publishDiagnostics "
              "equal; model = implementation on everything incl. the malformed stream; and the same along edit histories "
              "(introduce / repair one violation with unrelated edits around it, so that the node carrying the diagnostic is reused "
